@@ -396,6 +396,25 @@ func (fx *FnExec) checkAccess(st *State, loc *Loc, write bool, pos token.Pos) {
 			}
 			e.addObl("race", "initonce:"+name, tags, st, goal, pos)
 		}
+	case "write_once":
+		// written once (from nil) under the lock; an unlocked read is fine once the field was seen non-nil
+		heldW, heldAny := "false", "false"
+		for _, h := range append(e.held(st), fx.declaredHeld(st)...) {
+			if h.class == p.Lock {
+				cur := sel(e.heapGet(st, h.key), h.ref)
+				heldW = or(heldW, eq(cur, "1"))
+				heldAny = or(heldAny, not(eq(cur, "0")))
+			}
+		}
+		cur := e.loadLocQuiet(st, loc)
+		isNil := eq(cur[0], e.fl.zero(e.c, loc.T)[0])
+		if write {
+			if !fresh {
+				e.addObl("race", "writeonce:"+name, tags, st, and(heldW, isNil), pos)
+			}
+		} else if !fresh {
+			e.addObl("race", "writeonce:"+name, tags, st, or(heldAny, not(isNil)), pos)
+		}
 	case "free", "confined":
 		// no obligation
 	}
@@ -821,6 +840,22 @@ func (fx *FnExec) applyContract(st *State, callee *ssa.Function, con *FnContract
 		e.assume(st, g)
 	}
 	fx.checkHeldAtCall(st, con, env, key, pos)
+	// recursion: the callee's variant must be smaller than the caller's
+	if top := fx.topFx(); callee != nil && callee == top.fn {
+		tags := e.autoTags("term", fx.fn)
+		if con.Dec == nil {
+			o := e.addObl("term", "recursion:"+shortFnKey(key), tags, st, "false", pos)
+			if o != nil {
+				o.Static = "recursive call without a decreases clause"
+			}
+		} else {
+			cv := env.eval(con.Dec.Expr)
+			tv := top.specEnv(top.old, nil, nil).eval(con.Dec.Expr)
+			if cv != nil && tv != nil && len(cv.V.L) == 1 && len(tv.V.L) == 1 {
+				e.addObl("term", "recursion:"+shortFnKey(key), tags, st, and("(< "+cv.V.L[0]+" "+tv.V.L[0]+")", "(>= "+tv.V.L[0]+" 0)"), pos)
+			}
+		}
+	}
 	// lock discipline at the call: callee acquires these lock classes; they must be free
 	ws := e.calleeWriteSet(callee, con)
 	if ws != nil {
@@ -914,7 +949,9 @@ func (e *Engine) calleeWriteSet(callee *ssa.Function, con *FnContract) *WriteSet
 		ws.blocking = con.Blocking
 		return ws
 	}
-	// discovery run on a generic state
+	// discovery run on a generic state (isolated from the caller's trackers: the callee's locals are its own)
+	outer := e.tracks
+	e.tracks = nil
 	tr := e.pushTrack()
 	e.suppress++
 	e.depth++
@@ -931,6 +968,7 @@ func (e *Engine) calleeWriteSet(callee *ssa.Function, con *FnContract) *WriteSet
 	e.depth--
 	e.suppress--
 	e.popTrack()
+	e.tracks = outer
 	for k, f := range tr.keys {
 		ws.keys[k] = f
 	}
@@ -1255,6 +1293,38 @@ func (fx *FnExec) builtinModel(st *State, in ssa.CallInstruction, callee *ssa.Fu
 		return nil, true
 	case "sync.(*RWMutex).RUnlock":
 		fx.lockOp(st, args[0], "RUnlock", pos)
+		return nil, true
+	case "sync.NewCond":
+		v := e.freshVal(st, "cond", rt)
+		e.assume(st, not(eq(v.L[0], "0")))
+		return v, true
+	case "sync.(*Cond).Broadcast", "sync.(*Cond).Signal":
+		return nil, true
+	case "sync.(*Cond).Wait":
+		class := e.w.spec.Conds[args[0].Origin]
+		tags := e.autoTags("lock", fx.fn)
+		var own *heldLock
+		for _, h := range e.held(st) {
+			if h.class == class {
+				hh := h
+				own = &hh
+			}
+		}
+		if class == "" || own == nil {
+			o := e.addObl("lock", "cond.wait:lock", tags, st, "false", pos)
+			if o != nil {
+				o.Static = "cond.Wait on a condition variable whose lock is not declared (cond ... uses ...) or not held"
+			}
+			return nil, true
+		}
+		// Wait = release L, block, re-acquire L
+		cur := sel(e.heapGet(st, own.key), own.ref)
+		e.addObl("lock", "owned:cond.wait", tags, st, eq(cur, "1"), pos)
+		fx.release(st, class, own.ref, pos)
+		e.heapWrite(st, own.key, store(e.heapGet(st, own.key), own.ref, "0"), own.ref)
+		fx.blockingPoint(st, "cond.Wait", pos, []string{})
+		e.acquire(st, class, own.ref, fx)
+		e.heapWrite(st, own.key, store(e.heapGet(st, own.key), own.ref, "1"), own.ref)
 		return nil, true
 	case "sync/atomic.AddInt32", "sync/atomic.AddUint32", "sync/atomic.AddInt64", "sync/atomic.AddUint64":
 		loc := args[0].Loc
